@@ -8,6 +8,7 @@ CONSTANTS
  MinDump = 0
  Dump = FALSE
  EmptyBlockFlushes = TRUE
+ EmptyLooksAtChildren = TRUE
  WalkerCapturesNext = TRUE
  InnerForNestRoots = TRUE
 SPECIFICATION MSpec
